@@ -9,6 +9,7 @@ package keygen
 import (
 	"encoding/hex"
 	"errors"
+	"fmt"
 	"math/big"
 	"sync"
 
@@ -45,6 +46,7 @@ func (round *round2) Start() *tss.Error {
 	dlnProof1FailCulprits := make([]*tss.PartyID, len(round.temp.kgRound1Messages))
 	dlnProof2FailCulprits := make([]*tss.PartyID, len(round.temp.kgRound1Messages))
 	wg := new(sync.WaitGroup)
+	var duplicate error
 	for j, msg := range round.temp.kgRound1Messages {
 		r1msg := msg.Content().(*KGRound1Message)
 		H1j, H2j, NTildej, paillierPKj := r1msg.UnmarshalH1(),
@@ -61,11 +63,15 @@ func (round *round2) Start() *tss.Error {
 			return round.WrapError(errors.New("got NTildej with insufficient bits for this party"), msg.GetFrom())
 		}
 		h1JHex, h2JHex := hex.EncodeToString(H1j.Bytes()), hex.EncodeToString(H2j.Bytes())
-		if _, found := h1H2Map[h1JHex]; found {
-			return round.WrapError(errors.New("this h1j was already used by another party"), msg.GetFrom())
+		// A value announced by two parties cannot be attributed by itself: a party may replay another
+		// party's whole round-1 message (the dln proofs are not bound to a sender). The dln proofs are
+		// verified first (a copied value without a matching proof is blamed on its sender there); a
+		// duplicate that survives them is reported without naming a culprit.
+		if _, found := h1H2Map[h1JHex]; found && duplicate == nil {
+			duplicate = fmt.Errorf("this h1j was already used by another party (second use by %s)", msg.GetFrom())
 		}
-		if _, found := h1H2Map[h2JHex]; found {
-			return round.WrapError(errors.New("this h2j was already used by another party"), msg.GetFrom())
+		if _, found := h1H2Map[h2JHex]; found && duplicate == nil {
+			duplicate = fmt.Errorf("this h2j was already used by another party (second use by %s)", msg.GetFrom())
 		}
 		h1H2Map[h1JHex], h1H2Map[h2JHex] = struct{}{}, struct{}{}
 
@@ -91,6 +97,9 @@ func (round *round2) Start() *tss.Error {
 		if culprit != nil {
 			return round.WrapError(errors.New("dln proof verification failed"), culprit)
 		}
+	}
+	if duplicate != nil {
+		return round.WrapError(duplicate)
 	}
 	// save NTilde_j, h1_j, h2_j, ...
 	for j, msg := range round.temp.kgRound1Messages {
